@@ -21,3 +21,5 @@ def run(ctx):
     ctx.ob("PK1", "_url.URL.__eq__", "fields compared", used <= set(fields),
            f"== reads {sorted(used - set(fields))}, which are not part of the pickled state", sample=str(sorted(used)))
     sh4(ctx, Shapes(ctx.model))
+    from ..rules import immut
+    immut.im11(ctx)     # a copy / derived URL never inherits cache entries computed for another URL
